@@ -1198,7 +1198,8 @@ def _child_main():
 
 def _neg_values(dtype, n):
     lo = int(np.iinfo(dtype).min)
-    return [v for v in [-1, -1, -2, -n, -n - 1, -7, -128, -1000, lo] if v >= lo]
+    # also ids whose low 32 bits look like a valid state (2**32 - k is -k for a 32-bit reader, -2**32 + 1 is 1)
+    return [v for v in [-1, -1, -2, -n, -n - 1, -7, -128, -1000, lo, -2 ** 32, -2 ** 32 + 1, -2 ** 40 + 1, lo + 1] if v >= lo]
 
 
 @st.composite
@@ -1261,10 +1262,12 @@ def invalid_item(draw):
     elif kind.startswith("big"):
         if kind == "big_self" or draw(st.booleans()):
             hi = int(np.iinfo(dx).max)
-            X[t][draw(st.integers(0, Fx - 1))] = min(hi, draw(st.sampled_from([n_x, n_x, n_x + 1, n_x + 5, 127, hi])))
+            X[t][draw(st.integers(0, Fx - 1))] = min(hi, draw(st.sampled_from([n_x, n_x, n_x + 1, n_x + 5, 127, hi, 2 ** 32, 2 ** 32 + 1,
+                                                                                2 ** 40 + 1, 2 ** 63 + 1])))
         else:
             hi = int(np.iinfo(dy).max)
-            Y[t][draw(st.integers(0, Fy - 1))] = min(hi, draw(st.sampled_from([n_y, n_y, n_y + 1, n_y + 5, 127, hi])))
+            Y[t][draw(st.integers(0, Fy - 1))] = min(hi, draw(st.sampled_from([n_y, n_y, n_y + 1, n_y + 5, 127, hi, 2 ** 32, 2 ** 32 + 1,
+                                                                                2 ** 40 + 1, 2 ** 63 + 1])))
     elif kind in ("len", "len_mi_matrix"):
         T2 = draw(st.sampled_from([v for v in range(1, 15) if v != T]))
         Y = draw(side(T2, Fy, n_y, True))
